@@ -22,13 +22,14 @@ import (
 
 // scripted verdict kinds (VK): how the type-level Verify judges THIS header when it is the untrusted one.
 const (
-	VKLink  uint8 = iota // real rule: adjacent ⇒ hash link; non-adjacent ⇒ within TrustRange and not forged
-	VKOk                 // nil
-	VKPlain              // plain error
-	VKVerr0              // bare *VerifyError, hard
-	VKVerr1              // bare *VerifyError, soft
-	VKWrap0              // wrapped *VerifyError, hard
-	VKWrap1              // wrapped *VerifyError, soft
+	VKLink   uint8 = iota // real rule: adjacent ⇒ hash link; non-adjacent ⇒ within TrustRange and not forged
+	VKOk                  // nil
+	VKPlain               // plain error
+	VKVerr0               // bare *VerifyError, hard
+	VKVerr1               // bare *VerifyError, soft
+	VKWrap0               // wrapped *VerifyError, hard
+	VKWrap1               // wrapped *VerifyError, soft
+	VKShared              // ONE package-level *VerifyError (hard) returned by every call, as header types with sentinel errors do
 )
 
 var VKNames = []string{"link", "ok", "plain", "verr0", "verr1", "wrap0", "wrap1"}
@@ -107,6 +108,9 @@ func (d *Header) Hash() header.Hash {
 	return d.hash
 }
 
+// SharedVerifyError is what VKShared returns on every call: a hard failure.
+var SharedVerifyError = &header.VerifyError{Reason: ErrScripted}
+
 func scripted(vk uint8) error {
 	switch vk {
 	case VKOk:
@@ -121,6 +125,8 @@ func scripted(vk uint8) error {
 		return fmt.Errorf("vhdr wrap: %w", &header.VerifyError{Reason: ErrScripted})
 	case VKWrap1:
 		return fmt.Errorf("vhdr wrap: %w", &header.VerifyError{Reason: ErrScripted, SoftFailure: true})
+	case VKShared:
+		return SharedVerifyError
 	}
 	return nil
 }
